@@ -433,6 +433,8 @@ def rand_scene(r, T=(6, 14), shape=(4, 9), pml=(2, 3), bloch=False, p_nonuniform
         all_iso = all(mats.get(k) in (None, "iso") for k in ("eps_tier", "mu_tier", "sigma_e_tier", "sigma_h_tier"))
     else:
         all_iso = all(not isinstance(v, (list, tuple)) for o in mats.get("objects", []) for v in o.get("material", {}).values() if not isinstance(v, dict))
+        # per-axis poles make a material anisotropic as far as plane sources are concerned
+        all_iso = all_iso and not any(isinstance(v, (list, tuple)) for o in mats.get("objects", []) for p in (o.get("material", {}).get("dispersion") or {}).get("poles", []) for v in p.values())
     for i in range(int(r.integers(n_sources[0], n_sources[1] + 1))):
         k = choice(r, list(source_kinds))
         if not all_iso:
